@@ -35,6 +35,25 @@ if [ -n "$FAST" ]; then MUT=skip; BASE=skip; else (cd $DM && go test $RACE -coun
 python3 /verif/tools/baseline.py $WT >$VV/base.log 2>&1; BASE=$?; fi
 PROPS="$@"; [ -z "$PROPS" ] && PROPS=$(python3 -c "import json;print(' '.join(c['property_id'] for c in json.load(open('/verif/MANIFEST.json'))['checks']))")
 DET=""
+if [ $# -eq 0 ] && [ -z "$PERPROP" ]; then  # PERPROP=1: one process per property (binaries older than the ALL mode)
+  # one load for all properties (same rules, shared analysis caches)
+  $ERRLINT -repo $WT -verif $VV -prop ALL >$VV/ALL.log 2>&1
+  DET=$(python3 - "$VV/ALL.log" <<'PYEOF'
+import re,sys
+rules=set(); viol=False; out=[]
+for l in open(sys.argv[1]):
+    if l.startswith('KNOWN-FINDING') or l.startswith('WARNING'): continue
+    m=re.match(r'^(C\d\d) quick:',l)
+    if m:
+        if viol: out.append('%s[%s]'%(m.group(1),','.join(sorted(rules))))
+        rules=set(); viol=False; continue
+    if l.startswith('VIOLATION'): viol=True; continue
+    rules.update(x.strip('[]') for x in re.findall(r'\[R-[A-Za-z0-9/-]*\]',l))
+print(' '+' '.join(out) if out else '')
+PYEOF
+)
+  PROPS=""
+fi
 for P in $PROPS; do
   $ERRLINT -repo $WT -verif $VV -prop $P >$VV/$P.log 2>&1
   if grep -q '^VIOLATION' $VV/$P.log; then DET="$DET $P[$(grep -v '^KNOWN-FINDING' $VV/$P.log | grep -o '\[R-[A-Z/a-z0-9-]*\]' | sort -u | tr -d '[]' | tr '\n' ',' | sed 's/,$//')]"; fi
